@@ -22,7 +22,7 @@ ANCHORS = ["hashtable.py::HashTable.__init__", "hashtable.py::HashTable._build_r
            "hashtable.py::HashTable._get_indices", "hashtable.py::HashTable.contains", "hashtable.py::HashSet.contains", "hashtable.py::HashTable._fill_values",
            "hashtable.py::HashTable.__setitem__", "hashtable.py::HashTable.__getitem__", "hashtable.py::HashTable.fill", "hashtable.py::HashTable.__add__",
            "hashtable.py::HashTable.__eq__", "hashtable.py::HashTable.items", "hashtable.py::HashTable.to_dict", "hashtable.py::zeros_like", "hashtable.py::ones_like"]
-OPS = ["get1", "getv", "getmiss", "set1", "setv", "setvv", "fill", "contains", "hs_contains1", "hs_containsv", "zeros_like", "ones_like", "add", "eq", "items", "to_dict", "getwide", "getreuse", "deepcopy", "pickle"]
+OPS = ["get1", "getv", "getmiss", "set1", "setv", "setvv", "fill", "contains", "hs_contains1", "hs_containsv", "zeros_like", "ones_like", "add", "eq", "items", "to_dict", "getwide", "getreuse", "deepcopy", "pickle", "format"]
 FLOOR_TAGS = ["op:" + o for o in OPS] + ["init:scalar", "init:array", "mod:None", "mod:1", "mod:explicit", "keys:neg", "keys:big", "keys:dense", "keys:small",
                                          "kd:int8", "kd:uint64", "kd:list", "kd:int64", "state:scalar-at-first-write", "derived-table-used", "values:infinite"]
 FLOOR_MONITORS = ["c11:eq-other-keys", "c11:step", "c11:readback", "c11:keyset", "c11:must-refuse", "c11:caller-arrays"]
@@ -203,6 +203,11 @@ def run(case):
                 new = "d%d" % len(tables)
                 tables[new] = (a.value, {k: (0 if name == "zeros_like" else 1) for k in keys})
                 bad = readback(new, step)
+        elif name == "format":
+            # printing a table (and its set of keys) is a read: everything is read back afterwards as after any other step
+            a = attempt(lambda: (repr(tb), str(tb), "%s" % (tb,), repr(hs.value) if hs.ok else None))
+            if not a.ok:
+                bad = "formatting the table raised %r" % a
         elif name in ("deepcopy", "pickle"):
             # an independent copy: it answers like the original now, and joins the history (later writes to either must not reach the other)
             import copy
@@ -439,6 +444,16 @@ def directed():
             yield {"keys": keys, "kdtype": kd, "mod": None, "init": init, "vdtype": "int64", "nonkeys": nonkeys, "style": "dense",
                    "ops": [{"op": "getv", "table": "t", "keys": keys[:5]}, {"op": "set1", "table": "t", "keys": [keys[1]], "vals": [1000]}, {"op": "contains", "table": "t", "keys": keys[:3] + nonkeys[:2]},
                            {"op": "hs_containsv", "table": "t", "keys": keys[-2:] + nonkeys[:1]}, {"op": "items", "table": "t"}]}
+    # 12..40 keys spread over a huge range; membership queries in which an absent key occurs several times
+    for nk in (12, 20, 25, 40):
+        keys = [(i * 3 + 1) * 2 ** 40 + i * 7 for i in range(nk)]
+        rng.shuffle(keys)
+        absent = [5 * 2 ** 40 + 3, 2 ** 41 + 1, 17]
+        q = [absent[0], keys[0], absent[0], absent[1], keys[3], absent[0], absent[1], keys[0], absent[2], absent[2]]
+        for kd in ("int64", None, "uint64"):
+            yield {"keys": keys, "kdtype": kd, "mod": None, "init": 2, "vdtype": "int64", "nonkeys": absent, "style": "big",
+                   "ops": [{"op": "hs_containsv", "table": "t", "keys": q}, {"op": "contains", "table": "t", "keys": q}, {"op": "format", "table": "t"}, {"op": "hs_containsv", "table": "t", "keys": q[::-1]},
+                           {"op": "zeros_like", "table": "t"}, {"op": "format", "table": "d1"}, {"op": "getv", "table": "t", "keys": keys[:4]}]}
     for kd in KD:
         for style in ["small", "neg", "big", "dense"]:
             if style == "neg" and kd and kd.startswith("u"):
